@@ -348,6 +348,16 @@ func (e *verifC11Env) topic(cls string) string {
 // concretise builds the client JSON of one abstract message (a flat record of strings, see Session.tla `Msgs`).
 // Returns the JSON text and the request id ("" for notes).
 func (e *verifC11Env) concretise(m map[string]any) ([]byte, string) {
+	msg, id := e.concretiseMap(m)
+	b, err := json.Marshal(msg)
+	if err != nil {
+		panic(err)
+	}
+	return b, id
+}
+
+// concretiseMap: the client message as a JSON object (so that C13 can mutate single fields before it is serialised).
+func (e *verifC11Env) concretiseMap(m map[string]any) (map[string]any, string) {
 	k := verifC11S(m, "k")
 	id := e.id()
 	body := map[string]any{"id": id}
@@ -393,7 +403,8 @@ func (e *verifC11Env) concretise(m map[string]any) ([]byte, string) {
 			body["scheme"] = "reset"
 			switch sec {
 			case "known":
-				body["secret"] = verifC11B64([]byte("basic:" + verifC11Vname + ":bob@example.com"))
+				// carol is fresh per sequence: the reset code of the `code` authenticator is keyed by the credential
+				body["secret"] = verifC11B64([]byte(fmt.Sprintf("basic:%s:carol%d@example.com", verifC11Vname, e.act.n)))
 			case "unknown":
 				body["secret"] = verifC11B64([]byte("basic:" + verifC11Vname + ":nobody@example.com"))
 			case "malformed":
@@ -535,11 +546,7 @@ func (e *verifC11Env) concretise(m map[string]any) ([]byte, string) {
 	if len(ex) > 0 {
 		msg["extra"] = ex
 	}
-	b, err := json.Marshal(msg)
-	if err != nil {
-		panic(err)
-	}
-	return b, id
+	return msg, id
 }
 
 // ---------------------------------------------------------------- one step
@@ -594,6 +601,13 @@ func (e *verifC11Env) journalWrite(tag string, raw []byte) {
 // recoverPanic=false reproduces the real read loop (no recover: the process dies); with recoverPanic the panic value and
 // its site are recorded and the caller decides what to do with the (now undefined) session.
 func (e *verifC11Env) step(vs *verifSess, tag string, raw []byte, recoverPanic bool) *verifC11Obs {
+	return e.stepID(vs, tag, raw, recoverPanic, "")
+}
+
+// stepID: rid != "" names the request id whose reply is awaited for a short while when the server is quiescent and
+// nothing has arrived: the hub answers some requests from goroutines it spawns (`go replyOfflineTopicGetDesc`, ...) which
+// no probe can order after; silence is only recorded after that wait.
+func (e *verifC11Env) stepID(vs *verifSess, tag string, raw []byte, recoverPanic bool, rid string) *verifC11Obs {
 	e.journalWrite(tag, raw)
 	o := &verifC11Obs{}
 	done := make(chan struct{})
@@ -611,8 +625,10 @@ func (e *verifC11Env) step(vs *verifSess, tag string, raw []byte, recoverPanic b
 	}()
 	select {
 	case <-done:
-	case <-time.After(5 * time.Second):
-		o.Infra = "dispatch blocked for 5s"
+	case <-time.After(30 * time.Second):
+		buf := make([]byte, 1<<20)
+		buf = buf[:runtime.Stack(buf, true)]
+		o.Infra = "dispatch blocked for 30s\n" + string(buf)
 		return o
 	}
 	tq := time.Now()
@@ -621,6 +637,15 @@ func (e *verifC11Env) step(vs *verifSess, tag string, raw []byte, recoverPanic b
 	}
 	if !e.flush(vs) || !e.flush(e.reader) {
 		o.Infra = "session writer did not drain"
+	}
+	if rid != "" && o.Panic == "" && o.Infra == "" && !e.answered(vs, rid) {
+		verifC11Spin(time.Now().Add(verifC11SilenceWait), func() bool { return e.answered(vs, rid) })
+		if err := e.quiesce(); err != nil {
+			o.Infra = err.Error()
+		}
+		if !e.flush(vs) || !e.flush(e.reader) {
+			o.Infra = "session writer did not drain"
+		}
 	}
 	verifC11Tq += time.Since(tq)
 	verifC11Nq++
@@ -740,6 +765,25 @@ func (e *verifC11Env) absFrames(frames []verifFrame) []map[string]any {
 		}
 	}
 	return out
+}
+
+// how long a request with an id may stay unanswered on a quiescent server before the harness records silence
+var verifC11SilenceWait = 2 * time.Second
+
+// answered: some {ctrl}/{meta} frame carrying the id, or a {ctrl} without any id (replies built before the id is known).
+func (e *verifC11Env) answered(vs *verifSess, rid string) bool {
+	vs.mu.Lock()
+	defer vs.mu.Unlock()
+	for _, f := range vs.frames {
+		for _, k := range []string{"ctrl", "meta"} {
+			if m, ok := f[k].(map[string]any); ok {
+				if id, _ := m["id"].(string); id == rid || id == "" {
+					return true
+				}
+			}
+		}
+	}
+	return false
 }
 
 var verifC11Tq time.Duration
